@@ -70,6 +70,15 @@ def handleUdpSrv (out : List String) : Verdict :=
 def handle (args out : List String) : Verdict :=
   match args with
   | ["tcp", k, payload] => handleTcp k payload out
+  -- the same request from an IPv4 peer seen through a dual-stack listener (16-byte IPv4-mapped address) and from an IPv6 peer:
+  -- the handler's outcome class does not depend on the peer's address family
+  | ["tcpm", k, payload] => handleTcp k payload out
+  | ["tcp6", k, payload] => handleTcp k payload out
+  -- measurement: `crypt.Encrypt` under the concurrency of the connection goroutines (no model: the oracle is "no panic, every round trip exact")
+  | ["encpar", _, _] =>
+    match out with
+    | [cls, _] => if cls == "ok" then .agree else .disagreeFails s!"sig=tcp-panic concurrent-encrypt {cls.take 120}"
+    | _ => .bad "C06 encpar shape"
   | ["udpsrv", _] => handleUdpSrv out
   | _ =>
     match records args out with
